@@ -18,14 +18,14 @@ claimed = {
          "Values outside [min,max] returned by Get are taken as the exhaustion report."),
  "C08": ("E2 repl/converge + E3 lockstep (-race)", "exploration", "5 C08", "sequential multi-replica simulation of the real distributed.State with per-node offset clocks; seeded permutation/duplication/batching of captured broadcasts; reference LWW fold as oracle; plus concurrent delivery of competing updates by PRNG-scheduled tasks under the race detector (lockstep engine)",
          "Updates produced by real mutators on 1-3 origin replicas with clock offsets are delivered to 2-3 fresh replicas under independent plans (permuted, duplicated, batched, via NotifyMsg or MergeRemoteState); all receivers must equal the LWW fold of the update set.",
-         "Timestamps are unique across nodes (ties not generated); broadcasts are the real protobuf bytes."),
+         "Timestamps are unique across nodes (ties not generated); broadcasts are the real protobuf bytes; in 30 % of the cases a receiver carries the peer id of an origin (the owner of the records, restarted empty)."),
  "C09": ("E2 repl/bcast + E3 lockstep (-race)", "exploration", "5 C09", "sequential two-replica simulation: mutators on A, A's real broadcast queue drained into B after every operation or after batches of 2-5; listing equality and broadcast-key coverage as oracles, a quarter of the cases with an audit recorder that returns errors; plus concurrent local changes on one node by PRNG-scheduled tasks under the race detector, after which a fresh node fed every queued broadcast must equal the origin (lockstep engine)",
          "After every session/subscription/retained mutator (including bulk DeletePeer/DeleteSession over 0, 1, many entries) B must list exactly what A lists, and the broadcast must name every key whose visible state changed on A.",
          "Single strictly increasing clock, no loss (loss and reordering are C08's and C10's subjects)."),
  "C10": ("E2 repl/pushpull", "exploration", "5 C10", "sequential two-replica simulation with lossy gossip followed by real LocalState/MergeRemoteState exchange; per-replica LWW reference model",
          "Interleaved histories on A and B with each gossip batch delivered or lost, then snapshot A->B, B->A, fresh-B or both; the merged replica must equal the LWW merge of the two reference models (additions and removals), and both directions must yield identical listings.",
-         "Clocks synchronised (skew is C08's subject)."),
- "C11": ("E1 simbroker/lifecycle + displace + E1c sched", "exploration", "5 C11", "deterministic whole-broker simulation with fake time: session scripts with idle periods relative to the keep-alive and one termination cause (DISCONNECT, cut, close, link dying under a broker write, silence, protocol error, node stop; second variant: displacement by a newer session with the same client id), gossip faults, settle (listings judged before and after the anti-entropy exchange), then traffic towards every session",
+         "Clocks synchronised (skew is C08's subject); 40 % of the exchanges are of the Join kind (join=true on both sides)."),
+ "C11": ("E1 simbroker/lifecycle + displace + E1c sched", "exploration", "5 C11", "deterministic whole-broker simulation with fake time: session scripts with idle periods relative to the keep-alive and one termination cause (DISCONNECT, cut, close, link dying under a broker write - including the CONNACK -, silence, protocol error, node stop; sessions shorter than a gossip interval; second variant: displacement by a newer session with the same client id), gossip faults, settle (listings judged before and after the anti-entropy exchange), then traffic towards every session",
          "No spurious end while the client stays within 0.9x keep-alive; on end the broker closes the connection within a cause-specific bound, no node lists the session or its subscriptions after the settle, nothing more is written to it, and at quiescence every listed subscription belongs to a listed, locally registered session.",
          "The allowance is taken as 2x keep-alive (+5 s bound); keep-alive 0 not generated; one open known finding (gossip delivered after the leave notification)."),
  "C19": ("E2 tries + E3 lockstep (-race)", "exploration", "5 C19", "sequential simulation of topics.Store and subscriptions.Tree against a Go map keyed by full topic strings, with dump/load rebuild as the restart-like event, plus PRNG-scheduled concurrent tasks under the race detector with a porcupine map model (lockstep engine)",
